@@ -3,7 +3,8 @@ import sympy as sp
 from sympy import Symbol, Function, S
 from ..ir import (AnalysisBroken, Undecided, show, strip, strip_casts, walk_stmts, stmt_exprs, walk_expr, calls,
                   all_exprs, local_decls)
-from ..symx import Symx, State, Arr, is_zero
+from ..symx import Symx, State, Arr, is_zero, Sign2
+from ..objterms import ObjSymx, canon
 from .. import guards as G
 
 L = 'libphysica::'
@@ -52,52 +53,47 @@ def check(prog, ctx):
 
 
 def householder(prog, ctx):
+    """C15.a on the normal form of the returned matrix (object-valued terms, lpv/objterms.py): independent of
+    temporaries, statement order and of where the scalar stands in a product."""
     fn = prog.fn(L + 'Householder_Matrix')
-    sx = Symx(prog, fn)
-    outs = sx.run()
+    M = Symbol('obj:' + fn.params[0]['name'])
+    F = lambda n: Function(n, real=True)
+    x = F(L + 'Matrix::Return_Column')(M, 0)
+    n = F(L + 'Vector::Size')(x)
+    x0 = x.func(*(tuple(x.args) + (sp.Integer(0),)))
+    alpha = Sign2(F(L + 'Vector::Norm')(x), -x0)
+    e1 = F('UPD')(F('VFILL')(n, 0), 0, 1)
+    u = F('op-:' + L + 'Vector::operator-')(x, F('op*:' + L + 'operator*')(alpha, e1))
+    un = F(L + 'Vector::Normalize!')(u)
+    want = F('op-:' + L + 'Matrix::operator-')(F(L + 'Identity_Matrix')(n), F('op*:' + L + 'operator*')(2, F(L + 'Outer_Vector_Product')(un, un)))
+    want_c = canon(want)
+    try:
+        osx = ObjSymx(prog, fn)
+        outs = osx.run()
+    except Undecided as ex_:
+        ctx.undecided('C15.a', 'Householder:reflector', fn, 'construction outside the understood fragment: %s' % ex_)
+        return
     rets = [o for o in outs if o.kind == 'return']
-    M = fn.params[0]['name']
-    X = Function(L + 'Matrix::Return_Column', real=True)(Symbol('obj:' + M), 0)
-    main = []
-    other = []
+    main, other = [], []
     for o in rets:
-        v = o.value
-        txt = str(v)
-        if 'Outer_Vector_Product' in txt and 'Identity_Matrix' in txt:
-            main.append(o)
+        try:
+            same = canon(o.value) == want_c
+        except Exception:
+            same = False
+        (main if same else other).append(o)
+    if main:
+        ctx.holds('C15.a', 'Householder:reflector', fn, 'I - 2 u u^T with u = normalised(x - Sign(|x|,-x0) e1), x the first column')
+    else:
+        # which ingredient differs?  compare the canonical trees of the closest returned value
+        cand = [o for o in rets if isinstance(o.value, sp.Basic) and 'Outer_Vector_Product' in str(o.value)]
+        if not cand:
+            ctx.undecided('C15.a', 'Householder:reflector', fn, 'no returned value is built from Outer_Vector_Product: the construction is outside the understood fragment')
         else:
-            other.append(o)
-    ok = False
-    detail = 'no path returns Identity - 2*Outer(u,u)'
-    if len(main) == 1:
-        v = main[0].value
-        # structure: op-(Identity_Matrix(n), op*(2, Outer(u,u)))
-        calls_ = {c['callee']['name']: c for c in calls(fn) if c.get('callee')}
-        want_seq = []
-        # IR-level verification of each ingredient
-        decls = {d['name']: d for d in local_decls(fn)}
-        ingredients = []
-        xs = [d for d in decls.values() if d.get('init') is not None and 'Return_Column' in show(d['init'])]
-        okx = len(xs) == 1 and show(xs[0]['init']).replace(' ', '') == '%s.Return_Column(0)' % M
-        xn = xs[0]['name'] if xs else '?'
-        al = [d for d in decls.values() if d.get('init') is not None and show(unwrap(d['init'])).replace(' ', '') in
-              ('Sign(%s.Norm(),-%s[0])' % (xn, xn), 'Sign(norm,-%s[0])' % xn)]
-        oka = len(al) == 1
-        an = al[0]['name'] if al else '?'
-        e1 = [d for d in decls.values() if d.get('init') is not None and show(strip(d['init'])).replace(' ', '') in ('Vector(%s.Size(),0.0)' % xn, 'Vector(%s.Size(),0)' % xn)]
-        en = e1[0]['name'] if e1 else '?'
-        e1set = any(e.get('k') == 'Bin' and e['op'] == '=' and show(e['lhs']).replace(' ', '') == '%s[0]' % en and strip_casts(e['rhs']).get('val') in ('1.0', '1')
-                    for e in all_exprs(fn))
-        us = [d for d in decls.values() if d.get('init') is not None and show(unwrap(d['init'])).replace(' ', '') in
-              ('(%s-(%s*%s))' % (xn, an, en), '(%s-%s*%s)' % (xn, an, en), '%s-%s*%s' % (xn, an, en))]
-        un = us[0]['name'] if us else '?'
-        norm = any(c.get('kind') == 'method' and c['callee']['name'] == 'Normalize' and show(c['obj']) == un for c in calls(fn))
-        rv = [show(unwrap(d['init'])).replace(' ', '') for d in decls.values() if d.get('init') is not None and 'Outer_Vector_Product' in show(d['init'])]
-        okq = any(t in ('(Identity_Matrix(%s.Size())-(2.0*Outer_Vector_Product(%s,%s)))' % (xn, un, un), '(Identity_Matrix(%s.Size())-2.0*Outer_Vector_Product(%s,%s))' % (xn, un, un))
-                  for t in rv) or any('Identity_Matrix(%s.Size())' % xn in t and 'Outer_Vector_Product(%s,%s)' % (un, un) in t and '2.0*' in t and '-' in t for t in rv)
-        ok = okx and oka and bool(e1) and e1set and bool(us) and norm and okq
-        detail = 'x=%s alpha=%s e1=%s(set %s) u=%s normalised=%s Q=%s' % (okx, oka, bool(e1), e1set, bool(us), norm, okq)
-    ctx.decide('C15.a', 'Householder:reflector', fn, ok, 'I - 2 u u^T with u = normalised(x - Sign(|x|,-x0) e1)', 'reflector construction not recognised: ' + detail)
+            got_c = canon(cand[0].value)
+            ctx.violated('C15.a', 'Householder:reflector', fn, 'the returned matrix is not I - 2 u u^T with u = normalised(x - Sign(|x|,-x0) e1): %s' % tree_diff(want_c, got_c),
+                         witness={'returned': str(cand[0].value)[:400], 'expected': str(want)[:400],
+                                  'reproducer': 'QR_Decomposition({{3,1},{4,2}}): Q*R differs from M / Q is not orthogonal'})
+        other = [o for o in other if o not in cand[:1]]
     probs = []
     for o in other:
         conds = o.state.conds
@@ -109,7 +105,27 @@ def householder(prog, ctx):
                '; '.join(probs), witness={'paths': probs} if probs else None)
 
 
+def tree_diff(a, b, path='result'):
+    """First place where two canonical trees differ, as text."""
+    if a == b:
+        return 'identical'
+    if not isinstance(a, tuple) or not isinstance(b, tuple) or len(a) != len(b) or (a and b and a[0] != b[0] and isinstance(a[0], str)):
+        return 'at %s: expected %s, found %s' % (path, short(a), short(b))
+    for i, (x, y) in enumerate(zip(a, b)):
+        if x != y:
+            if isinstance(x, tuple) and isinstance(y, tuple):
+                return tree_diff(x, y, '%s/%s' % (path, a[0] if isinstance(a[0], str) else i))
+            return 'at %s: expected %s, found %s' % (path, short(x), short(y))
+    return 'differ'
+
+
+def short(t, n=160):
+    s_ = str(t).replace('libphysica::', '')
+    return s_ if len(s_) <= n else s_[:n] + '...'
+
+
 def qr(prog, ctx):
+    """C15.b on one iteration of the sweep, in object-valued terms."""
     R = 'C15.b'
     fn = prog.fn(L + 'QR_Decomposition')
     loops = [s for s in fn.body['body'] if s['k'] == 'For']
@@ -117,108 +133,177 @@ def qr(prog, ctx):
         ctx.undecided(R, 'QR:sweep', fn, 'sweep loop not found')
         return
     lp = loops[0]
-    iv = lp['init']['decls'][0]['name']
-    body = lp['body']['body']
-    decl = {}
-    asg = []
-    for s in body:
-        if s['k'] == 'Decl':
-            for d in s['decls']:
-                decl[d['name']] = show(unwrap(d['init'])).replace(' ', '') if d.get('init') is not None else None
-        if s['k'] == 'Expr':
-            e = strip(s['e'])
-            if e.get('k') == 'Bin' and e['op'] == '=':
-                asg.append((show(e['lhs']).replace(' ', ''), show(unwrap(e['rhs'])).replace(' ', '')))
-    # names by role
-    refl = [n for n, t in decl.items() if t and t.startswith('Householder_Matrix(')]
-    if len(refl) != 1:
-        ctx.undecided(R, 'QR:sweep', fn, 'reflector of the current sub-matrix not found')
-        return
-    ps = refl[0]
-    sub = decl[ps][len('Householder_Matrix('):-1]
-    okupd = ('%s' % sub, '(%s*%s)' % (ps, sub)) in asg and (sub, '%s.Sub_Matrix(0,0)' % sub) in asg and \
-        asg.index((sub, '(%s*%s)' % (ps, sub))) < asg.index((sub, '%s.Sub_Matrix(0,0)' % sub))
-    ctx.decide(R, 'QR:submatrix', fn, okupd, 'the working sub-matrix is reflected and then reduced by its first row and column', 'sub-matrix updates: %s' % asg[:3])
-    # embedded reflector: the matrix built from a 2x2 list of blocks
-    okemb = False
-    pn = None
-    blocks = None
-    for s in body:
-        if s['k'] != 'Decl':
-            continue
-        for d in s['decls']:
-            if d.get('init') is None or d['ty'] != L + 'Matrix':
-                continue
-            leaves = []
-            for n_ in walk_expr(d['init']):
-                if n_.get('k') == 'Call' and (n_.get('callee') or {}).get('q') == L + 'Identity_Matrix':
-                    leaves.append('I(%s)' % show(strip_casts(n_['args'][0])).replace(' ', ''))
-                elif n_.get('k') == 'Ref' and n_.get('ty') == L + 'Matrix' and n_.get('rk') == 'local':
-                    leaves.append(n_['name'])
-            if len(leaves) == 4 and leaves[0].startswith('I('):
-                blocks = leaves
-                pn = d['name']
-    if blocks:
-        z1, z2 = blocks[1], blocks[2]
-        s1, s2 = decl.get(z1) or '', decl.get(z2) or ''
-        # Zero_1 is i x (n-i), Zero_2 is (n-i) x i, bottom-right block is the reflector of the sub-matrix
-        okemb = blocks[0] == 'I(%s)' % iv and blocks[3] == ps and s1.replace(' ', '').startswith('Matrix(%s,' % iv) and \
-            s2.replace(' ', '').endswith(',%s,0.0)' % iv) and s1.split(',')[1] == s2.split('(')[1].split(',')[0]
-    emb = {pn: blocks}
-    ctx.decide(R, 'QR:embedding', fn, okemb, 'P = [[I_i, 0],[0, reflector]] with conforming zero blocks', 'embedded reflector not recognised: %s' % emb)
-    if pn:
-        rn = [l for l, r in asg if r == '(%s*%s)' % (pn, l)]
-        qn = [l for l, r in asg if r == '(%s*%s)' % (l, pn)]
-        okapp = len(rn) == 1 and len(qn) == 1 and rn[0] != qn[0]
+    F = lambda n: Function(n, real=True)
+    Mn = Symbol('obj:' + fn.params[0]['name'])
+    try:
+        osx = ObjSymx(prog, fn)
+        sts = osx.states_at(fn, lp)
+        if len(sts) != 1:
+            raise Undecided('%d paths reach the sweep' % len(sts))
+        st0 = sts[0]
+        cl = osx.counted(lp, st0)
+        if cl is None:
+            raise Undecided('the sweep is not a counted loop')
+        ivar, lo, hi = cl
+        # roles by initial value and by what is returned: (Q, R) returned; Q starts as the identity, R and the working sub-matrix as M
         rets = [s for s in fn.body['body'] if s['k'] == 'Return']
-        rt = show(rets[0]['e']).replace(' ', '') if rets else ''
-        okapp = okapp and (rt.endswith('{%s,%s}' % (qn[0], rn[0])) or ('%s,%s' % (qn[0], rn[0])) in rt) if okapp else False
-        ctx.decide(R, 'QR:application', fn, okapp, 'R <- P R and Q <- Q P with the same P; (Q, R) returned in this order',
-                   'the embedded reflector is applied as %s / %s, returned %s' % (rn, qn, rt))
-        # zeroing
-        zl = [s for s in body if s['k'] == 'For']
-        okz = False
-        if len(zl) == 1 and rn:
-            z = zl[0]
-            jv = z['init']['decls'][0]['name']
-            lo = show(strip_casts(z['init']['decls'][0]['init'])).replace(' ', '')
-            hi = show(z['cond']).replace(' ', '')
-            w = [show(strip(e)).replace(' ', '') for x in walk_stmts(z['body']) for e in stmt_exprs(x)]
-            okz = lo == '%s+1' % iv and hi == '%s<m' % jv and w == ['%s[%s][%s]=0.0' % (rn[0], jv, iv)]
-        ctx.decide(R, 'QR:zeroing', fn, okz, 'entries below the diagonal of column i are set to zero after the reflection', 'zeroing loop not recognised')
+        if len(rets) != 1:
+            raise Undecided('single return after the sweep expected')
+        rv = strip_casts(rets[0]['e'])
+        names = [n_.get('id') for n_ in walk_expr(rv) if n_.get('k') == 'Ref' and n_.get('ty') == L + 'Matrix']
+        if len(names) != 2:
+            raise Undecided('the returned pair is not built from two matrices')
+        qid, rid = names
+        rows = F(L + 'Matrix::Rows')(Mn)
+        cols = F(L + 'Matrix::Columns')(Mn)
+        init_ok = canon(st0.env.get(qid)) == canon(F(L + 'Identity_Matrix')(rows)) and st0.env.get(rid) == Mn
+        subs_ = [k_ for k_, v_ in st0.env.items() if v_ == Mn and k_ not in (rid,)]
+        ctx.decide(R, 'QR:initial', fn, init_ok and len(subs_) == 1 and lo == 0 and hi == cols,
+                   'Q = I_m, R = M, working sub-matrix = M; one sweep per column', 'initial values Q=%s R=%s sub-matrices=%d sweep=[%s,%s)'
+                   % (short(st0.env.get(qid)), short(st0.env.get(rid)), len(subs_), lo, hi))
+        if len(subs_) != 1:
+            raise Undecided('working sub-matrix not identified')
+        sid = subs_[0]
+        # one iteration, statement by statement; the zeroing loop is looked at separately
+        body = lp['body']['body'] if lp['body']['k'] == 'Compound' else [lp['body']]
+        i = Symbol(ivar['name'] + '@it', integer=True, nonnegative=True)
+        st = st0.fork()
+        Qin, Rin, Sin = Symbol('arr:Q@in'), Symbol('arr:R@in'), Symbol('arr:S@in')
+        st.env[qid], st.env[rid], st.env[sid], st.env[ivar['id']] = Qin, Rin, Sin, i
+        inner = [s for s in body if s['k'] in ('For', 'While')]
+        live = [st]
+        for s_ in body:
+            if s_ in inner:
+                continue
+            live, dn = osx.exec(s_, live)
+            if dn or len(live) != 1:
+                raise Undecided('the sweep body branches or exits')
+        env = live[0].env
+    except Undecided as ex_:
+        ctx.undecided(R, 'QR:sweep', fn, 'sweep outside the understood fragment: %s' % ex_)
+        return
+    H = F(L + 'Householder_Matrix')(Sin)
+    mul = lambda a_, b_: F('op*:' + L + 'Matrix::operator*')(a_, b_)
+    want_S = F(L + 'Matrix::Sub_Matrix')(mul(H, Sin), 0, 0)
+    ctx.decide(R, 'QR:submatrix', fn, canon(env.get(sid)) == canon(want_S), 'the working sub-matrix is reflected and then reduced by its first row and column',
+               'working sub-matrix becomes %s: %s' % (short(env.get(sid)), tree_diff(canon(want_S), canon(env.get(sid)))))
+    # the embedded reflector: whatever multiplies R from the left
+    Rout, Qout = env.get(rid), env.get(qid)
+    P = None
+    cr = canon(Rout) if isinstance(Rout, sp.Basic) else None
+    if cr and cr[0] == 'mul' and cr[2] == canon(Rin):
+        P = cr[1]
+    n_i = cols - i
+    zero = lambda r_, c_: F('FILL')(r_, c_, 0)
+    want_P = [canon(F('BLOCKS')(sp.Tuple(sp.Tuple(F(L + 'Identity_Matrix')(i), zero(i, d_)), sp.Tuple(zero(d_, i), H)))) for d_ in (n_i, rows - i)]
+    okP = P is not None and P in want_P
+    ctx.decide(R, 'QR:embedding', fn, okP, 'P = [[I_i, 0],[0, reflector of the current sub-matrix]] with conforming zero blocks',
+               'R is multiplied from the left by %s: %s' % (short(P), tree_diff(want_P[0], P) if P is not None else 'R <- P*R not found (R becomes %s)' % short(Rout)))
+    okQ = P is not None and isinstance(Qout, sp.Basic) and canon(Qout) == ('mul', canon(Qin), P)
+    ctx.decide(R, 'QR:application', fn, okQ, 'R <- P R and Q <- Q P with the same P (P^2 = I keeps Q R invariant); (Q, R) returned in this order',
+               'Q becomes %s while R <- P*R with P = %s' % (short(Qout), short(P)))
+    # zeroing of the sub-column: rows i+1..m-1 of column i of R, after the reflection
+    okz = False
+    detail = 'zeroing loop not found'
+    if len(inner) == 1 and body.index(inner[0]) > max(body.index(s_) for s_ in body if s_ not in inner and any(
+            x_.get('k') == 'Ref' and x_.get('id') == rid for e_ in stmt_exprs(s_) for x_ in walk_expr(e_)) or s_['k'] == 'Decl'):
+        z = inner[0]
+        try:
+            zst = live[0].fork()
+            zc = osx.counted(z, zst) if z['k'] == 'For' else None
+            if zc is not None:
+                jv, zlo, zhi = zc
+                zst.env[jv['id']] = Symbol('j@z', integer=True)
+                zst.env[rid] = Symbol('arr:R@z')
+                zl, zd = osx.exec(z['body'], [zst])
+                if not zd and len(zl) == 1:
+                    rz = zl[0].env.get(rid)
+                    want_z = F('UPD')(Symbol('arr:R@z'), Symbol('j@z', integer=True), i, 0)
+                    others = [k_ for k_ in zl[0].env if zl[0].env[k_] is not zst.env.get(k_) and k_ not in (rid, jv['id'])]
+                    okz = rz == want_z and sp.simplify(zlo - (i + 1)) == 0 and zhi in (rows, cols)
+                    detail = 'loop over [%s,%s) writes %s' % (zlo, zhi, short(rz))
+        except Undecided as ex_:
+            detail = str(ex_)
+    ctx.decide(R, 'QR:zeroing', fn, okz, 'entries below the diagonal of column i are set to zero after the reflection', 'zeroing of the sub-column not recognised: ' + detail)
 
 
 def eigenvalues(prog, ctx):
     R = 'C15.c'
     fn = prog.fn(L + 'Eigenvalues')
-    asg = [(show(e['lhs']).replace(' ', ''), show(unwrap(e['rhs'])).replace(' ', '')) for e in all_exprs(fn) if e.get('k') == 'Bin' and e['op'] == '=']
-    oksim = any(r in ('(qr.second*qr.first)',) for l, r in asg)
-    ctx.decide(R, 'Eigenvalues:similarity', fn, oksim, 'A <- R Q', 'similarity step not recognised: %s' % [a for a in asg if 'qr' in a[1]])
-    # convergence measure: both accumulators add absolute values
-    accs = [(show(e['lhs']).replace(' ', ''), strip_casts(e['rhs'])) for e in all_exprs(fn) if e.get('k') == 'Bin' and e['op'] == '+=']
-    tests = [s for s in walk_stmts(fn.body) if s['k'] == 'If' and strip(s['cond']).get('k') == 'Bin' and strip(s['cond'])['op'] in ('<', '<=')
-             and strip_casts(strip(s['cond'])['lhs']).get('k') == 'Bin' and strip_casts(strip(s['cond'])['lhs'])['op'] == '/']
-    probs = []
-    if len(tests) != 1:
-        probs.append('convergence test ratio < tolerance not found')
-    else:
-        ratio = strip_casts(strip(tests[0]['cond'])['lhs'])
-        num, den = show(ratio['lhs']).replace(' ', ''), show(ratio['rhs']).replace(' ', '')
-        for nm, role, want_ix in ((num, 'numerator', 'off'), (den, 'denominator', 'diag')):
-            adds = [r for l, r in accs if l == nm]
-            if not adds:
-                probs.append('%s `%s` is not accumulated' % (role, nm))
-                continue
-            for r in adds:
-                if not (r.get('k') == 'Call' and (r.get('callee') or {}).get('name') in ('fabs', 'abs')):
-                    probs.append('the %s `%s` of the convergence measure adds %s, not an absolute value: with a negative trace the ratio is negative and '
-                                 'the test passes before convergence' % (role, nm, show(r)))
+    F = lambda n: Function(n, real=True)
+    AU = sp.core.function.AppliedUndef
+    loops = [s for s in fn.body['body'] if s['k'] in ('For', 'While')]
+    try:
+        if len(loops) != 1:
+            raise Undecided('one iteration loop expected')
+        osx = ObjSymx(prog, fn)
+        sts = osx.states_at(fn, loops[0])
+        if len(sts) != 1:
+            raise Undecided('%d paths reach the iteration' % len(sts))
+        entry, cond, live, done, n0 = osx.loop_step(loops[0], sts[0])
+        # the iterated matrix: the matrix-typed variable carried by the loop
+        mats = [k_ for k_, v_ in entry.items() if isinstance(v_, Arr) and any(
+            d_['id'] == k_ and d_['ty'] == L + 'Matrix' for d_ in local_decls(fn))]
+        if len(mats) != 1:
+            raise Undecided('iterated matrix not identified (%d candidates)' % len(mats))
+        aid = mats[0]
+        Ain = Symbol('arr:' + str(entry[aid].name))
+        QR = F(L + 'QR_Decomposition')(Ain)
+        want_A = F('op*:' + L + 'Matrix::operator*')(F('.second')(QR), F('.first')(QR))
+        outs_A = set(canon(p_.env.get(aid)) for p_ in live if isinstance(p_.env.get(aid), sp.Basic))
+        ctx.decide(R, 'Eigenvalues:similarity', fn, outs_A == {canon(want_A)}, 'A <- R Q with (Q, R) the QR factors of the current A',
+                   'the iterate becomes %s: %s' % ([short(p_.env.get(aid)) for p_ in live][:1], tree_diff(canon(want_A), sorted(outs_A, key=str)[0]) if outs_A else 'no matrix term'))
+        Aout = want_A
+        rets = [o for o in done if o.kind == 'return']
+        if len(rets) != 1:
+            raise Undecided('%d returning paths in one iteration' % len(rets))
+        ro = rets[0]
+        probs = []
+        # convergence test on the returning path: sum |sub-diagonal| / sum |diagonal| < tolerance
+        tests = [c_ for c_ in ro.state.conds[n0:] if isinstance(c_, (sp.StrictLessThan, sp.LessThan)) and c_.atoms(sp.Sum)]
+        if len(tests) != 1:
+            probs.append('convergence test ratio < tolerance not found')
+        else:
+            ratio, tol = tests[0].lhs, tests[0].rhs
+            num, den = sp.fraction(sp.together(ratio))
+            el = lambda r_, c_: Aout.func(*(tuple(Aout.args) + (r_, c_)))
+            for nm, t_, want_kind in (('numerator', num, 'sub'), ('denominator', den, 'diag')):
+                sums = [x_ for x_ in [t_] if isinstance(x_, sp.Sum)]
+                if len(sums) != 1:
+                    probs.append('%s of the convergence measure is %s, not a sum over matrix entries' % (nm, short(t_)))
+                    continue
+                body_, lims = sums[0].function, sums[0].limits
+                if not (isinstance(body_, sp.Abs)):
+                    probs.append('the %s of the convergence measure adds %s, not an absolute value: with a negative trace the ratio is negative and '
+                                 'the test passes before convergence' % (nm, short(body_)))
+                    continue
+                ent = body_.args[0]
+                if not (isinstance(ent, AU) and ent.func == Aout.func and tuple(ent.args[:len(Aout.args)]) == tuple(Aout.args) and len(ent.args) == len(Aout.args) + 2):
+                    probs.append('%s sums %s, not entries of the iterate' % (nm, short(ent)))
+                    continue
+                r_, c_ = ent.args[-2:]
+                rows_ = F(L + 'Matrix::Rows')(Aout)
+                if want_kind == 'diag':
+                    okd = r_ == c_ and len(lims) == 1 and lims[0][0] == r_ and lims[0][1] == 0 and sp.simplify(lims[0][2] - (rows_ - 1)) == 0
+                    if not okd:
+                        probs.append('denominator sums %s over %s, not the whole diagonal' % (short(ent), [str(l_) for l_ in lims]))
                 else:
-                    ix = show(r['args'][0]).replace(' ', '')
-                    if want_ix == 'diag' and not (ix.endswith('[j][j]') or ix.endswith('[k][k]') or ix.endswith('[i][i]')):
-                        probs.append('denominator sums %s, not the diagonal' % ix)
-    ctx.decide(R, 'Eigenvalues:convergence-measure', fn, not probs, 'sum |sub-diagonal| / sum |diagonal| < tolerance', '; '.join(probs),
-               witness={'reproducer': 'a symmetric matrix with negative trace: unconverged diagonals are returned after 12 sweeps'} if probs else None)
+                    lim = {l_[0]: (l_[1], l_[2]) for l_ in lims}
+                    oks = len(lims) == 2 and r_ in lim and c_ in lim and sp.simplify(lim[r_][0] - (c_ + 1)) == 0 and sp.simplify(lim[r_][1] - (rows_ - 1)) == 0 \
+                        and lim[c_][0] == 0 and sp.simplify(lim[c_][1] - (rows_ - 1)) == 0
+                    if not oks:
+                        probs.append('numerator sums %s over %s, not the entries below the diagonal' % (short(ent), [str(l_) for l_ in lims]))
+            if not (tol.is_number and 0 < float(tol) <= 1e-6):
+                probs.append('tolerance is %s' % tol)
+        # the returned values are the diagonal of the iterate
+        rv = ro.value
+        kk = Symbol('k', integer=True)
+        if not (isinstance(rv, Arr) and rv.read((kk,)) == Aout.func(*(tuple(Aout.args) + (kk, kk)))):
+            probs.append('the returned list is %s, not the diagonal of the iterate' % (short(rv.read((kk,))) if isinstance(rv, Arr) else short(rv)))
+        ctx.decide(R, 'Eigenvalues:convergence-measure', fn, not probs, 'sum |sub-diagonal| / sum |diagonal| < tolerance, then the diagonal is returned', '; '.join(probs),
+                   witness={'reproducer': 'a symmetric matrix with negative trace: unconverged diagonals are returned after 12 sweeps'} if probs else None)
+    except Undecided as ex_:
+        ctx.undecided(R, 'Eigenvalues:iteration', fn, 'QR iteration outside the understood fragment: %s' % ex_)
     wr = G.find_wrappers(prog)
     sites = G.exit_sites(prog, fn, wr)
     loops = [s for s in fn.body['body'] if s['k'] == 'For']
